@@ -12,7 +12,7 @@ CLAIMED = {
    technique="Lean 4 proof (decision logic ⇔ declarative predicate) + verdict correspondence",
    design="§A7 C15 (as built), Part II §7 C15 (rationale)"),
  "C16": dict(
-   text="Lean 4 theorems over the truncating msm for both suites: request completeness when the secrets are listed in generator (index) order, special soundness of the issuer-side check (the commitment opens over the generators the issuer does not know and the blinding generator only), the over-long-vector theorem behind the repaired response-count check, blind signing + unblinding yields a signature on the union vector (BBS, PS), perfect hiding of the PS request and determinism of the BBS commitment (known finding). The real three-step flow runs for every non-empty blindable subset of schemas whose label order differs from index order, and deviating holders attack the policy (non-blindable, overlapping, duplicated labels), the proof (every leaf, every vector length, over-long forgery with recomputed challenge) and the commitment.",
+   text="Lean 4 theorems over the truncating msm for both suites: request completeness when the secrets are listed in generator (index) order, special soundness of the issuer-side check (the commitment opens over the generators the issuer does not know and the blinding generator only), the over-long-vector theorem behind the repaired response-count check, blind signing + unblinding yields a signature on the union vector (BBS, PS), perfect hiding of the PS request and determinism of the BBS commitment (known finding). The real three-step flow runs for every non-empty blindable subset of schemas whose label order differs from index order, and deviating holders attack the policy (non-blindable, overlapping, duplicated labels), the proof (every leaf, every vector length, over-long forgery with recomputed challenge) and the commitment. The issuer-side context check is compared with the model's blindVerify / blindRecommit over the real generators as opaque bases (bl.verify: error / wrong count / recomputed point); the request is attacked with a general distinguisher (commitment minus the candidate's contribution against public multiples of the generator).",
    note="Trusted: Lean kernel + standard axioms; forking lemma; pairing reading of signature validity. The blindable / disjoint / cover policy is decision logic exercised on the real issuer, not modelled in Lean. Known finding: BBS request commitment is unblinded.",
    technique="Lean 4 proof (Σ-protocol algebra of the blind contexts, flow identities) + exhaustive-subset flow runs and deviating-holder catalogue",
    design="§A7 C16 (as built), Part II §7 C16 (rationale)"),
@@ -37,7 +37,7 @@ CLAIMED = {
    technique="Lean 4 proof over executable codec model + differential correspondence and round-trip oracle on the Rust code",
    design="§A7 C19 (as built), Part II §7 C19 (rationale)"),
  "C01": dict(
-   text="Lean 4 theorems in two layers. Decision logic of Presentation::verify for every presentation object and schema: acceptance implies the challenge comparison succeeded, every signature statement is matched with a proof of the signature variant that passed the disclosed-claims check and its proof-of-knowledge verifier, every predicate statement with a proof of its own variant; other variants / missing proofs are rejected. Algebra (C17): special soundness of the BBS / PS proofs of knowledge for response vectors of the checked length with the extracted witness shown to be a signature. On the real code an adversary without any signature of the statement's issuer runs the attack catalogue (foreign credential, steered transplant, free challenges, omitted proof, all 7 other variants under the signature id, observed proofs, every response-vector length, over-long forgeries with harvested pair / no signature, identity elements).",
+   text="Lean 4 theorems in two layers. Decision logic of Presentation::verify for every presentation object and schema: acceptance implies the challenge comparison succeeded, every signature statement is matched with a proof of the signature variant that passed the disclosed-claims check and its proof-of-knowledge verifier, every predicate statement with a proof of its own variant; other variants / missing proofs are rejected. Algebra (C17): special soundness of the BBS / PS proofs of knowledge for response vectors of the checked length with the extracted witness shown to be a signature. On the real code an adversary without any signature of the statement's issuer runs the attack catalogue (foreign credential, steered transplant, free challenges, omitted proof, all 7 other variants under the signature id, observed proofs, every response-vector length, over-long forgeries with harvested pair / no signature, identity elements). The plan stage of the model (`planStage`: every proof stored under the id it carries, statement/proof pairing, disclosure check, reference resolution) is compared with the real verifier on every attack object (vf.plan: was the challenge computed).",
    note="Trusted: Lean kernel + standard axioms; forking lemma, q-SDH / PS assumption, random-oracle idealisation of merlin; pairing read through the secret key. The decision-logic model is hand-written; its disclosed-claims check is compared with the real verdict (C02 stream) and its dispatch clauses are exercised by the attack catalogue; cryptographic sub-checks are parameters of that model.",
    technique="Lean 4 proof (decision logic + special soundness) + adversarial attack catalogue on the real verifier",
    design="§A7 C01 (as built), Part II §7 C01 (rationale)"),
@@ -47,7 +47,7 @@ CLAIMED = {
    technique="Lean 4 proof of the decision logic + steered-prover deviation catalogue with model comparison",
    design="§A7 C02 (as built), Part II §7 C02 (rationale)"),
  "C03": dict(
-   text="Lean 4 completeness theorems for every sub-protocol as coded (BBS and PS proofs of knowledge for every revealed/hidden partition over the zip-truncating msm, commitment, ElGamal, per-byte proofs, byte-sum check, equality): the verifier's recomputation from honest responses equals what the honest prover hashed, for all witnesses, randomness and challenges. The composition is exercised on the real code: random well-formed scenarios over all statement kinds, 1..3 credentials, both suites, shuffled statement order, chained equalities, before and after BARE / JSON / CBOR round trips.",
+   text="Lean 4 completeness theorems for every sub-protocol as coded (BBS and PS proofs of knowledge for every revealed/hidden partition over the zip-truncating msm, commitment, ElGamal, per-byte proofs, byte-sum check, equality): the verifier's recomputation from honest responses equals what the honest prover hashed, for all witnesses, randomness and challenges. The composition is exercised on the real code: random well-formed scenarios over all statement kinds, 1..3 credentials, both suites, shuffled statement order, chained equalities, before and after BARE / JSON / CBOR round trips. Every honest scenario is also run with its statements reversed, rotated and range-first; the validation logic of create (Model/Create.lean, cr.ok) and the plan stage of verify (vf.plan) are compared with the real code on each.",
    note="Trusted: Lean kernel + standard axioms; bulletproofs / AES-GCM completeness; 'prover and verifier append identical transcript items in identical order' is checked by running the real create/verify on generated scenarios (oracle), not proved — there is no executable Lean model of Presentation::create yet.",
    technique="Lean 4 proof of per-protocol completeness + honest-run oracle on generated statement graphs",
    design="§A7 C03 (as built), Part II §7 C03 (rationale)"),
@@ -57,12 +57,12 @@ CLAIMED = {
    technique="Lean 4 injectivity proof of the transcript encoder + byte-exact transcript correspondence + parameter-mutation sweep",
    design="§A7 C04 (as built), Part II §7 C04 (rationale)"),
  "C05": dict(
-   text="Lean 4 theorems: on a strictly ascending revealed list (what every caller passes after the repair) the index→response lookup returns exactly the hidden indices, each with the response at the slot where the proof of knowledge pairs its generator (proved by an invariant over the cursor loop; the unsorted-list shift of the pinned tree is exhibited); special soundness of the commitment and ElGamal verifiers extracts the predicate's witness with the same difference quotient of the shared response that the signature extractor assigns to that message, accumulator statements are linked through s_y equality. Deviating holders with valid credentials attack every statement kind on the real verifier: sub-protocol on another claim / other credential under the verifier's transcript (steered prover), every ordering of the proof's index list, transplanted predicate proofs.",
+   text="Lean 4 theorems: on a strictly ascending revealed list (what every caller passes after the repair) the index→response lookup returns exactly the hidden indices, each with the response at the slot where the proof of knowledge pairs its generator (proved by an invariant over the cursor loop; the unsorted-list shift of the pinned tree is exhibited); special soundness of the commitment and ElGamal verifiers extracts the predicate's witness with the same difference quotient of the shared response that the signature extractor assigns to that message, accumulator statements are linked through s_y equality. Deviating holders with valid credentials attack every statement kind on the real verifier: sub-protocol on another claim / other credential under the verifier's transcript (steered prover), every ordering of the proof's index list, transplanted predicate proofs. The response a predicate verifier links to is the model's sorted lookup (pred.linked, eq.verdict) and the recomputed commitments the real verifier hashes are compared with commitmentRecommit / elgamalRecommit fed with that lookup (cm.recommit, eg.recommit); deviations include equality over another claim with shaped index lists and a predicate over a disclosed claim.",
    note="Trusted: Lean kernel + standard axioms; soundness of the VB20 membership proof itself (Gt equation) and of bulletproofs; forking lemma. The composition 'lookup slot = generator slot' uses hiddenGens taken in index order (model of both suites' verify).",
    technique="Lean 4 proof (loop invariant of the lookup + shared-response extraction) + steered-prover deviation catalogue",
    design="§A7 C05 (as built), Part II §7 C05 (rationale)"),
  "C07": dict(
-   text="Lean 4 theorems, perfect (no assumption) and for every challenge: every linear Σ-protocol of the code is witness-indistinguishable under an explicit bijection of the nonces; the repaired commitment statement is perfectly hiding and its whole view (C, message response, blinder response) for one candidate equals the view for any other under a translation of the randomness; the pinned nonce-reuse distinguishers (commitment, ElGamal, per-byte) are proved as algebraic identities that separate candidates. The distinguisher catalogue (nonce-reuse solver over all responses × points × public generators, byte variant, point ratios, deterministic images, cross-presentation quotients) runs on the public view of honest presentations of every statement kind.",
+   text="Lean 4 theorems, perfect (no assumption) and for every challenge: every linear Σ-protocol of the code is witness-indistinguishable under an explicit bijection of the nonces; the repaired commitment statement is perfectly hiding and its whole view (C, message response, blinder response) for one candidate equals the view for any other under a translation of the randomness; the pinned nonce-reuse distinguishers (commitment, ElGamal, per-byte) are proved as algebraic identities that separate candidates. The distinguisher catalogue (nonce-reuse solver over all responses × points × public generators, byte variant, point ratios, deterministic images, cross-presentation quotients) runs on the public view of honest presentations of every statement kind. Distinguisher catalogue includes nonce-free and shared-nonce responses (per claim, per byte, across claims of two equality groups); verifier-side relations of every honest presentation are compared with the model (cm.recommit, eg.recommit, vf.plan).",
    note="Trusted: Lean kernel + standard axioms; one-dimensionality (prime order) of G1; random-oracle simulation; DDH/DLIN hiding of the ciphertext components that are decryptable by design (ElGamal pairs, byte ciphertexts, accumulator-witness encryption), zero-knowledge of bulletproofs, AES-GCM; uniformity of OsRng. The honest prover's draw schedule is not replayed from an RNG tape (no source hook): independence of blinders is checked through the catalogue, which reproduces all three pinned leaks when the repairs are reverted.",
    technique="Lean 4 proof (perfect witness indistinguishability / hiding bijections) + public-data distinguisher catalogue",
    design="§A7 C07 (as built), Part II §7 C07 (rationale)"),
@@ -72,22 +72,22 @@ CLAIMED = {
    technique="Lean 4 proof (integer / modular arithmetic over the whole i64 domain) + verdict correspondence on a boundary lattice",
    design="§A7 C08 (as built), Part II §7 C08 (rationale)"),
  "C09": dict(
-   text="Lean 4 theorems: the verifier's all-equal test on the looked-up responses for two challenges forces equal difference quotients, i.e. equal extracted (signed, by C17) values; differing values make the test fail for at least one challenge; one shared nonce with equal values passes. Real runs over 2..3 credentials from different issuers, hashed / number / scalar positions, equal and unequal values incl. scalars differing only above bit 64, with deviating holders (independent nonces under the verifier's challenge, responses copied between proofs, equality proof removed / stored elsewhere).",
+   text="Lean 4 theorems: the verifier's all-equal test on the looked-up responses for two challenges forces equal difference quotients, i.e. equal extracted (signed, by C17) values; differing values make the test fail for at least one challenge; one shared nonce with equal values passes. Real runs over 2..3 credentials from different issuers, hashed / number / scalar positions, equal and unequal values incl. scalars differing only above bit 64, with deviating holders (independent nonces under the verifier's challenge, responses copied between proofs, equality proof removed / stored elsewhere). The verifier's test on the collected responses is the model's allEqual / equalityVerdict (eq.check, eq.verdict) compared with the real verdict on honest, independent-nonce, partially-equal (3..4 credentials) and bridging-group scenarios.",
    note="Trusted: as C05/C17. Completeness of nonce sharing across overlapping statements is tied by the chained-equality scenarios of C03 (repaired finding F04).",
    technique="Lean 4 proof (equal responses ⇒ equal extracted values) + honest/deviating runs on the real verifier",
    design="§A7 C09 (as built), Part II §7 C09 (rationale)"),
  "C10": dict(
-   text="Lean 4 theorems from the opening extracted by C05.elgamal_sound: group decryption is m•M; pseudonyms are a function of (signed scalar, generator) and collide across generators only for the zero scalar; the byte-sum check forces the bytes to represent the signed scalar modulo the group order unless generator and key are discrete-log related; reduction modulo r recovers it (incl. the representation m + r the pinned decoder rejected); a claim returned by decrypt_and_verify encodes to the signed scalar once the proof's generator is the statement's (repair), with the pinned generator-swap exhibited. Real runs on every claim type with honest holders, a steered holder omitting the requested part and a hand-written holder (own randomness, real knox API) decomposing into non-canonical / wrong bytes.",
+   text="Lean 4 theorems from the opening extracted by C05.elgamal_sound: group decryption is m•M; pseudonyms are a function of (signed scalar, generator) and collide across generators only for the zero scalar; the byte-sum check forces the bytes to represent the signed scalar modulo the group order unless generator and key are discrete-log related; reduction modulo r recovers it (incl. the representation m + r the pinned decoder rejected); a claim returned by decrypt_and_verify encodes to the signed scalar once the proof's generator is the statement's (repair), with the pinned generator-swap exhibited. Real runs on every claim type with honest holders, a steered holder omitting the requested part and a hand-written holder (own randomness, real knox API) decomposing into non-canonical / wrong bytes. Scalar decryption is compared with the model's byte recomposition (ve.scalar) on values whose encodings cover all 256 byte values.",
    note="Trusted: Lean kernel + standard axioms; bulletproofs (each byte ciphertext opens to a value < 256), AES-GCM, forking lemma. Known finding: decrypt_scalar only supports the G1 generator.",
    technique="Lean 4 proof (decryption algebra from the extracted opening) + honest / steered / hand-written-holder runs",
    design="§A7 C10 (as built), Part II §7 C10 (rationale)"),
  "C11": dict(
-   text="Lean 4 theorems: a changed response moves the recomputed Schnorr commitment whenever its base point is not the identity, a changed statement point moves it when the challenge is non-zero (generic over the truncating msm), instantiated for the commitment and ElGamal verifiers and turned into a rejection theorem for the BBS t-check; removal / replacement of required proofs is decided by the dispatch theorems of C01. Every leaf of honest presentations (JSON form: random / zero / identity / negation / +1 / sibling; vectors resized; proofs removed / swapped) and sampled single-byte / single-bit changes of the BARE form are run against the real decoder + verifier.",
+   text="Lean 4 theorems: a changed response moves the recomputed Schnorr commitment whenever its base point is not the identity, a changed statement point moves it when the challenge is non-zero (generic over the truncating msm), instantiated for the commitment and ElGamal verifiers and turned into a rejection theorem for the BBS t-check; removal / replacement of required proofs is decided by the dispatch theorems of C01. Every leaf of honest presentations (JSON form: random / zero / identity / negation / +1 / sibling; vectors resized; proofs removed / swapped) and sampled single-byte / single-bit changes of the BARE form are run against the real decoder + verifier. For honest and a sample of mutated presentations the commitments the real verifier recomputes are compared with the model's recomputation (cm.recommit, eg.recommit).",
    note="Trusted: Lean kernel + standard axioms; a fresh transcript hitting the presented challenge is negligible (random oracle); canonical third-party decoders. Known finding: enumeration total_values above 16 bits is not covered by any hashed value.",
    technique="Lean 4 proof (tampered leaf moves a hashed recomputation) + exhaustive single-site mutation sweep",
    design="§A7 C11 (as built), Part II §7 C11 (rationale)"),
  "C12": dict(
-   text="Lean 4 theorems: the randomised signature elements of BBS (a_bar = r•A) and PS ((r•σ₁, r•(σ₂+t•σ₁))) and the blinded accumulator witness are images of each other for any two valid signatures / witnesses under an explicit bijection of the holder's randomness (prime-order group), so with C07's witness indistinguishability the proof material of presentations from one credential is distributed as that from different credentials with the same disclosed claims. Linking tests (leaf equality, small / repeated cross-presentation difference quotients, pairing cross-ratios over all G1 × G2 leaves) are evaluated on same-credential and different-credential pairs of real presentations.",
+   text="Lean 4 theorems: the randomised signature elements of BBS (a_bar = r•A) and PS ((r•σ₁, r•(σ₂+t•σ₁))) and the blinded accumulator witness are images of each other for any two valid signatures / witnesses under an explicit bijection of the holder's randomness (prime-order group), so with C07's witness indistinguishability the proof material of presentations from one credential is distributed as that from different credentials with the same disclosed claims. Linking tests (leaf equality, small / repeated cross-presentation difference quotients, pairing cross-ratios over all G1 × G2 leaves) are evaluated on same-credential and different-credential pairs of real presentations. Linking catalogue includes normalised response differences within a presentation; verifier-side relations of both presentations are compared with the model.",
    note="Trusted: as C07. Statements that deliberately derive pseudonyms (verifiable encryption) are excluded by the property.",
    technique="Lean 4 proof (randomisation bijections) + linking-test catalogue on pairs of real presentations",
    design="§A7 C12 (as built), Part II §7 C12 (rationale)"),
@@ -102,7 +102,7 @@ CLAIMED = {
    technique="Lean 4 proof (loop invariants, induction over histories) + differential correspondence in discrete-log space",
    design="§A7 C14 (as built), Part II §7 C14 (rationale)"),
  "C20": dict(
-   text="Lean 4 totality theorems (no model entry point reaches the explicit `panic` outcome, for every input) over the Outcome-typed model of the claim parsers/decoders, tied to the real code by comparing outcome classes ok|err|panic under catch_unwind on enumerated and random untrusted inputs.",
+   text="Lean 4 totality theorems (no model entry point reaches the explicit `panic` outcome, for every input) over the Outcome-typed model of the claim parsers/decoders, tied to the real code by comparing outcome classes ok|err|panic under catch_unwind on enumerated and random untrusted inputs. Structural part: every delete / rename / retarget / retype / resize / re-tag mutation of presentations, verifier schemas (several statement orders), blind requests, blind bundles, issuer public data and inconsistent maps, and byte fuzzing of every serde decoder, under catch_unwind (about 16k cases per quick run); Model/Create.lean (createOk, theorem create_ok_references_resolve) and the plan stage of verify are compared with the real outcome class on every decodable mutated object (cr.ok, vf.plan).",
    note="Trusted: as C18. Covered entry points so far: ClaimData::from_text/from_bytes/to_text, ScalarClaim::encode_*/decode_*; other entry points are exercised by the harness catalogue only. Allocation failure and stack depth are outside the model.",
    technique="Lean 4 totality proof over Outcome-typed model + outcome-class correspondence",
    design="§A7 C20 (as built), Part II §7 C20 (rationale)"),
